@@ -475,6 +475,7 @@ package tcp
 //@   ensures implies(!old(r.closed) && !old(acceptableDef(r, s.sequenceNumber, seqnum.Size(s.data.size))), ghost(delivered) == old(ghost(delivered)))
 //@   ensures implies(!old(r.closed) && !old(acceptableDef(r, s.sequenceNumber, seqnum.Size(s.data.size))), ghost(tcpSegs) == old(ghost(tcpSegs)) + 1 && ghost(lastTCPFlags) == int(flagAck))
 //@   loop 1 invariant segsNonNil(r.pendingRcvdSegments)
+//@   loop 1 decreases len(r.pendingRcvdSegments)
 //@   loop 1 invariant rcvOK(r)
 //@   loop 1 invariant sndOK(r.ep.snd)
 //@   modifies everything(), modset(NETGHOSTS), ghost(delivered)
